@@ -291,6 +291,20 @@ def measure(lines):
                 break
         if any(_overlap([clip(a, s_) for (a, s_, _, _) in c.win[ty]]) for ty in (4, 0)):
             inc("overlap class", "STACK WIN/STACK WIN")
+        # duplicate (depth, address) keys among the kept INLINE ranges of one FUNC (c11_inlinee_duplicates):
+        # the answer is then decided by the rest of the derived order (size, call_file, call_line, origin)
+        dup = same = False
+        for f in c.funcs:
+            keys = {}
+            for e in f.inls + f.finls:
+                if e[2] > 0:
+                    keys.setdefault((e[0], e[1]), set()).add(tuple(e))
+            dup = dup or any(len(v) > 1 for v in keys.values())
+            same = same or any(len({t[2] for t in v}) < len(v) for v in keys.values())
+        if dup:
+            inc("overlap class", "INLINE ranges with equal (depth, address), different payload")
+        if same:
+            inc("overlap class", "INLINE ranges with equal (depth, address, size), different call site / origin")
         if any(e[2] == 0 for f in c.funcs for e in f.inls):
             inc("degenerate records", "zero-size INLINE")
         if any(l[1] == 0 for f in c.funcs for l in f.lines):
@@ -894,10 +908,6 @@ class C11(PropBase):
         if len(parts) != 2 + len(c.qs) or not parts[0].startswith("T") or not parts[-1].startswith("X"):
             return "unparseable answer " + ans[:100]
         twin = parts.pop()
-        if twin != "Xok":
-            # c11_inline_order_irrelevant: Function values and every symbolication are independent of the order of the INLINE ranges
-            return ("the same file with the INLINE ranges of each FUNC block in another order gives a different result (%s): "
-                    "inline frames / call-site lines depend on record order, so some order misreports the calls covering the address" % twin[1:])
         mranges = [rng_func(b, sz) if sz <= U32 else None for (b, sz, _) in c.mods]
         for q, p in zip(c.qs, parts[1:]):
             d, rest = p.split("/S")
@@ -942,6 +952,10 @@ class C11(PropBase):
                 if not any(f.name == gname and in_r(rng_func(f.addr, f.size), q) for f in c.funcs) and \
                         not any(pb[1] == gname and pb[0] <= q for pb in c.pubs):
                     return "get_symbol_at_address(%d) = %s: no FUNC of that name contains the address and no PUBLIC of that name is at or below it" % (q, gname)
+        if twin != "Xok":
+            # c11_inline_order_irrelevant: Function values and every symbolication are independent of the order of the INLINE ranges
+            return ("the same file with the INLINE ranges of each FUNC block in another order gives a different result (%s): "
+                    "inline frames / call-site lines depend on record order, so some order misreports the calls covering the address" % twin[1:])
         return None
 
     def judge(self, c, mbase, q, fn, src, inl):
